@@ -70,9 +70,23 @@ func sortedKeys[V any](m map[string]V) []string {
 
 const pkg = "pkg"
 
-func input(s string) core.BuildInput {
-	if strings.HasPrefix(s, "//") {
-		return core.ParseBuildLabel(s, pkg)
+// input turns one entry of srcs / tools into the core.BuildInput parseSource in
+// src/parse/asp/targets.go makes of it: a label (annotated with `|name` or not), a system file
+// (absolute path), a tool found on the PATH (bare name in tools) or a file of the package.
+func input(s string, tool bool) core.BuildInput {
+	if core.LooksLikeABuildLabel(s) {
+		l, ann := core.SplitLabelAnnotation(s)
+		bl := core.ParseBuildLabel(l, pkg)
+		if ann != "" {
+			return core.AnnotatedOutputLabel{BuildLabel: bl, Annotation: ann}
+		}
+		return bl
+	}
+	if filepath.IsAbs(s) {
+		return core.SystemFileLabel{Path: s}
+	}
+	if tool {
+		return core.SystemPathLabel{Name: s, Path: []string{"/usr/bin", "/bin"}}
 	}
 	return core.FileLabel{File: s, Package: pkg}
 }
@@ -98,19 +112,19 @@ func newTarget(s spec) *core.BuildTarget {
 	}
 	t.Command = s.Cmd
 	for _, x := range s.Srcs {
-		t.AddSource(input(x))
+		t.AddSource(input(x, false))
 	}
 	for _, n := range sortedKeys(s.NamedSrcs) {
 		for _, x := range s.NamedSrcs[n] {
-			t.AddNamedSource(n, input(x))
+			t.AddNamedSource(n, input(x, false))
 		}
 	}
 	for _, x := range s.Tools {
-		t.AddTool(input(x))
+		t.AddTool(input(x, true))
 	}
 	for _, n := range sortedKeys(s.NamedTools) {
 		for _, x := range s.NamedTools[n] {
-			t.AddNamedTool(n, input(x))
+			t.AddNamedTool(n, input(x, true))
 		}
 	}
 	for _, x := range s.Outs {
@@ -169,6 +183,7 @@ type mon struct {
 	best  map[string]*found
 	// attributes found to have no influence on the hash at all
 	unhashed map[string]bool
+	kinds    map[string]bool // Go types of the build inputs that were hashed in the "inputs" pools
 }
 
 type found struct {
@@ -232,14 +247,39 @@ type value struct {
 	set    func(*spec)
 	flat   string // entries concatenated in order, names included
 	noName string // the sorted multiset of entries without group names (named attributes only)
+	noAnn  string // label pools only: the value with the `|name` annotations of its labels removed
 	n      int    // number of entries
 	repr   string
 }
 
 type attribute struct {
 	name string
+	pool string // "" or the name of an additional value pool of the same attribute
 	vals []value
 	kind string // list | named | map | scalar
+}
+
+// id names the (attribute, pool) pair.
+func (a attribute) id() string {
+	if a.pool == "" {
+		return a.name
+	}
+	return a.name + "#" + a.pool
+}
+
+// stripAnn removes the annotation of an annotated label ("//p:a|x" -> "//p:a").
+func stripAnn(x string) string {
+	if core.LooksLikeABuildLabel(x) {
+		x, _ = core.SplitLabelAnnotation(x)
+	}
+	return x
+}
+
+// inputs marks a as the "inputs" pool of its attribute: values over every kind of core.BuildInput
+// (plain and annotated labels, package files, system files, PATH tools).
+func inputs(a attribute) attribute {
+	a.pool = "inputs"
+	return a
 }
 
 var alphabet = []string{"a", "b", "ab", "ba", "c", "bc", "abc", "a=b", "b=c", "=", "a b", "x"}
@@ -248,6 +288,13 @@ var labelAlpha = []string{"//p:a", "//p:b", "//p:ab", "//pa:b", "//p/a:b", "//p:
 // tool labels are disjoint from dependency labels: a label that is both a tool and a dep is one
 // dependency record in Please, and what that means for the action is not asserted here.
 var toolAlpha = []string{"//t:a", "//t:b", "//t:ab", "//ta:b", "//t/a:b", "//t:a_b"}
+
+// Input alphabets: what srcs and tools accept besides files resp. plain labels. An annotated label
+// //p:a|x selects the named output (or entry point) x of //p:a, so //p:a, //p:a|b and //p:a|bc put
+// different files into the action; the annotations share prefixes with each other and with the
+// target names ("//p:a|bc" / "//p:ab|c" / "//p:ab"). Only one spelling per label is generated.
+var srcInputAlpha = []string{"//p:a", "//p:a|a", "//p:a|b", "//p:a|bc", "//p:ab", "//p:ab|c", "//p:b|a", "a", "/a", "/a|b"}
+var toolInputAlpha = []string{"//t:a", "//t:a|a", "//t:a|b", "//t:a|bc", "//t:ab", "//t:ab|c", "//t:b|a", "a", "ab", "/a"}
 
 // requires used in contexts are disjoint from the label alphabet (a require is implicitly a label).
 var ctxRequires = []string{"ra", "rb", "rab"}
@@ -293,9 +340,23 @@ func listAttr(name string, alpha []string, max int, set bool, assign func(*spec,
 			} else {
 				assign(s, nil)
 			}
-		}, flat: strings.Join(l, ""), n: len(l), repr: lib.JSON(l)})
+		}, flat: strings.Join(l, ""), noAnn: noAnnList(l), n: len(l), repr: lib.JSON(l)})
 	}
 	return a
+}
+
+// noAnnList is the list with annotations stripped ("" when no entry is a label: the notion does not apply).
+func noAnnList(l []string) string {
+	out := make([]string, len(l))
+	any := false
+	for i, x := range l {
+		out[i] = stripAnn(x)
+		any = any || core.LooksLikeABuildLabel(x)
+	}
+	if !any {
+		return ""
+	}
+	return lib.JSON(out)
 }
 
 func namedAttr(name string, alpha []string, set bool, assign func(*spec, map[string][]string)) attribute {
@@ -305,9 +366,12 @@ func namedAttr(name string, alpha []string, set bool, assign func(*spec, map[str
 		var flat, noName strings.Builder
 		var all []string
 		n := 0
+		noAnn, anyLabel := map[string][]string{}, false
 		for _, k := range sortedKeys(m) {
 			flat.WriteString(k)
 			for _, x := range m[k] {
+				noAnn[k] = append(noAnn[k], stripAnn(x))
+				anyLabel = anyLabel || core.LooksLikeABuildLabel(x)
 				flat.WriteString(x)
 				all = append(all, x)
 				n++
@@ -315,7 +379,11 @@ func namedAttr(name string, alpha []string, set bool, assign func(*spec, map[str
 		}
 		sort.Strings(all)
 		noName.WriteString(strings.Join(all, "\x00"))
-		a.vals = append(a.vals, value{set: func(s *spec) { assign(s, m) }, flat: flat.String(), noName: noName.String(), n: n, repr: lib.JSON(m)})
+		v := value{set: func(s *spec) { assign(s, m) }, flat: flat.String(), noName: noName.String(), n: n, repr: lib.JSON(m)}
+		if anyLabel {
+			v.noAnn = lib.JSON(noAnn)
+		}
+		a.vals = append(a.vals, v)
 	}
 	for i, n1 := range groupNames {
 		for _, l1 := range ls {
@@ -378,14 +446,18 @@ func attributes() []attribute {
 	as := []attribute{
 		scalarAttr("cmd", scalars, func(s *spec, v string) { s.Cmd = v }),
 		listAttr("srcs", alphabet, 3, false, func(s *spec, l []string) { s.Srcs = l }),
+		inputs(listAttr("srcs", srcInputAlpha, 3, false, func(s *spec, l []string) { s.Srcs = l })),
 		namedAttr("named_srcs", small, false, func(s *spec, m map[string][]string) { s.NamedSrcs = m }),
+		inputs(namedAttr("named_srcs", []string{"//p:a", "//p:a|a", "//p:a|b", "//p:b|a", "a"}, false, func(s *spec, m map[string][]string) { s.NamedSrcs = m })),
 		listAttr("outs", alphabet, 3, true, func(s *spec, l []string) { s.Outs = l }),
 		namedAttr("named_outs", small, true, func(s *spec, m map[string][]string) { s.NamedOuts = m }),
 		listAttr("optional_outs", alphabet, 3, true, func(s *spec, l []string) { s.OptOuts = l }),
 		listAttr("deps", labelAlpha, 3, true, func(s *spec, l []string) { s.Deps = l }),
 		// tools: label tools as a set (order is also seen by the source hash, so it is not asserted here)
 		listAttr("tools", toolAlpha, 3, true, func(s *spec, l []string) { s.Tools = l }),
+		inputs(listAttr("tools", toolInputAlpha, 3, true, func(s *spec, l []string) { s.Tools = l })),
 		namedAttr("named_tools", toolAlpha[:4], true, func(s *spec, m map[string][]string) { s.NamedTools = m }),
+		inputs(namedAttr("named_tools", []string{"//t:a", "//t:a|a", "//t:a|b", "//t:b|a", "a"}, true, func(s *spec, m map[string][]string) { s.NamedTools = m })),
 		mapAttr("env", func(s *spec, m map[string]string) { s.Env = m }),
 		listAttr("labels", alphabet, 3, true, func(s *spec, l []string) { s.Labels = l }),
 		listAttr("secrets", alphabet, 3, false, func(s *spec, l []string) { s.Secrets = l }),
@@ -427,6 +499,8 @@ func populated() spec {
 // mode names how two colliding values of one attribute relate.
 func mode(kind string, x, y value) string {
 	switch {
+	case x.noAnn != "" && x.noAnn == y.noAnn && x.flat != y.flat:
+		return "annotation-ignored" // the two values differ only in the `|name` of annotated labels
 	case x.flat == y.flat && kind == "map" && x.n == y.n:
 		return "kv-split"
 	case x.flat == y.flat && kind == "named":
@@ -582,13 +656,13 @@ func TestC08(t *testing.T) {
 	iplib.Quiet()
 	r := lib.Start("C08")
 	defer lib.End(t, r)
-	r.Rule = "per attribute of the statement: every value of an adversarial pool (all duplicate-free lists of <=3 entries over 12 hostile strings / all 1-2 entry maps over 5 keys x 11 values / all 1-2 group named lists), set on an otherwise empty target and on a fully populated one, hashed once and compared pairwise through a hash->value multimap; plus seeded pairs: two pool values of one attribute inside a random hostile context, and 10 kinds of adjacent-attribute moves. Distinct by the JSON of the definition(s); non-trivial = the attribute under test is non-empty"
+	r.Rule = "per attribute of the statement: every value of an adversarial pool (all duplicate-free lists of <=3 entries over 12 hostile strings / all 1-2 entry maps over 5 keys x 11 values / all 1-2 group named lists; srcs, named srcs, tools and named tools additionally over an alphabet of build inputs of every kind: plain labels, labels annotated with a named output / entry point (//p:a|b), package files, system files, PATH tools), set on an otherwise empty target and on a fully populated one, hashed once and compared pairwise through a hash->value multimap; plus seeded pairs: two pool values of one attribute inside a random hostile context, and 10 kinds of adjacent-attribute moves. Distinct by the JSON of the definition(s); non-trivial = the attribute under test is non-empty"
 	r.Assumes = []string{
 		"targets are built with the core.BuildTarget setters in the order src/parse/asp/targets.go uses them; build.RuleHash(state,target,false,false) on a fresh target is the hash Please stores",
 		"attributes that are sets in Please (outs, optional_outs, deps, labels, requires, output_dirs, tool labels) are generated sorted and duplicate-free, so reordering is never counted as a difference; empty list entries are not generated (the parser drops them)",
 		"pass_env values are observed through the monitor process's own environment, serialised by a mutex",
 	}
-	m := &mon{r: r, state: iplib.NewState(), best: map[string]*found{}, unhashed: map[string]bool{}}
+	m := &mon{r: r, state: iplib.NewState(), best: map[string]*found{}, unhashed: map[string]bool{}, kinds: map[string]bool{}}
 	os.Setenv("C08_P", "ctx")
 
 	if r.Replaying() {
@@ -621,6 +695,18 @@ func TestC08(t *testing.T) {
 		}
 		r.Obs("pool_pairs_compared", int64(len(specs)*(len(specs)-1)/2))
 		r.ObsDistinct("attributes_exercised", j.attr.name)
+		r.ObsDistinct("pools_exercised", j.attr.id())
+		if j.attr.pool == "inputs" {
+			for _, s := range specs {
+				for _, in := range inputsOf(s) {
+					k := fmt.Sprintf("%T", in)
+					r.ObsDistinct("input_kinds_exercised", k)
+					m.mu.Lock()
+					m.kinds[k] = true
+					m.mu.Unlock()
+				}
+			}
+		}
 		if len(buckets) == 1 && len(specs) > 2 {
 			// The attribute has no influence on the hash at all: one finding, not one per mode.
 			x, y := 0, 1
@@ -638,7 +724,7 @@ func TestC08(t *testing.T) {
 				m.record(j.attr.name+"/not-hashed", specs[x], specs[y], h, i, "pool/"+j.name)
 			}
 			m.mu.Lock()
-			m.unhashed[j.attr.name] = true
+			m.unhashed[j.attr.id()] = true
 			m.mu.Unlock()
 			return
 		}
@@ -742,7 +828,7 @@ func TestC08(t *testing.T) {
 		r.Obs("random_pairs_compared", 1)
 		if h := m.hash(sa); h == m.hash(sb) {
 			m.mu.Lock()
-			un := m.unhashed[a.name]
+			un := m.unhashed[a.id()]
 			m.mu.Unlock()
 			if un {
 				m.record(a.name+"/not-hashed", sa, sb, h, i, "random")
@@ -753,7 +839,23 @@ func TestC08(t *testing.T) {
 	})
 	dbg("random done")
 	r.RequireObserved("rule_hashes_computed", "pool_pairs_compared", "random_pairs_compared")
+	if got := len(m.kinds); got < 5 {
+		r.Inconclusive(fmt.Sprintf("only %d of the 5 kinds of build input (file, label, annotated label, system file, PATH tool) were exercised", got))
+	}
 	m.report()
+}
+
+// inputsOf lists the build inputs of a definition as the target holds them.
+func inputsOf(s spec) []core.BuildInput {
+	t := newTarget(s)
+	out := append(append([]core.BuildInput{}, t.Sources...), t.Tools...)
+	for _, l := range t.NamedSources {
+		out = append(out, l...)
+	}
+	for _, l := range t.AllNamedTools() {
+		out = append(out, l...)
+	}
+	return out
 }
 
 func cloneSpec(s spec) spec {
